@@ -268,12 +268,59 @@ def bounded(tier, seed):
             seqs = short + rnd.sample([q for q in seqs if len(q) > 2], cap - len(short))
         seqs += [[rnd.choice(names) for _ in range(rnd.randint(5, 30))] for _ in range(200 if tier == "thorough" else 25)]
         FAILING = {"fail", "syntax", "missing", "broken", "raising", "cycle", "loopabort"}
+
+        def model(st, cmd):
+            """reference session: names -> values; what each command leaves behind and whether it succeeds (the failed
+            remainder of a call leaves nothing: no loop variable, no half-loaded module, no later definition)"""
+            st = dict(st)
+            if cmd == "define":
+                st["v"] = 1
+                return st, "ok"
+            if cmd == "define2":
+                if "v" not in st:
+                    return st, "rt"
+                st["w"] = st["v"] + 1
+                return st, "ok"
+            if cmd == "assign":
+                if "v" not in st:
+                    return st, "rt"
+                st["v"] += 10
+                return st, "ok"
+            if cmd == "read":
+                return st, "ok" if "v" in st else "rt"
+            if cmd == "call":
+                return st, "ok" if "inc2" in st else "rt"
+            if cmd == "deffn":
+                st["inc2"] = "fn"
+                return st, "ok"
+            if cmd == "fail":
+                st["early"] = 5
+                return st, "rt"
+            if cmd == "syntax":
+                return st, "syn"
+            if cmd == "good":
+                st["good"] = "module"
+                return st, "ok"
+            if cmd == "loopabort":
+                st["li"] = 1
+                return st, "rt"
+            if cmd == "broken":
+                return st, "syn"
+            return st, "rt"        # missing, raising, cycle: nothing stays
         for seq in seqs:
             ev += 1
             I = new()
+            st = {}
             for i, cmd in enumerate(seq):
                 before = snapshot(I)
                 r1 = run(I, cmd)
+                st, kind = model(st, cmd)
+                got = {k: v for k, v in snapshot(I)}
+                want = {k: (str(v) if isinstance(v, int) else None) for k, v in st.items()}
+                if r1[0] != "host" and (r1[0] != kind or set(got) != set(want) or any(v is not None and got[k] != v for k, v in want.items())):
+                    fails.append({"id": "bounded:session-state-equals-the-reference-session(no residue of a failed remainder)", "input": str(seq[:i + 1]),
+                                  "observed": f"{r1[0]} {sorted(got.items())}", "expected": f"{kind} {sorted(want.items())}"})
+                    break
                 if r1[0] == "host":
                     fails.append({"id": "bounded:session-host-exception", "input": str(seq[:i + 1]), "observed": r1[1], "expected": "language error"})
                     break
